@@ -52,8 +52,10 @@ def run_case(bdir, root, ix, name, data, args_extra=()):
     (d / "self_including_file.h").write_bytes(data)
     res = []
     env = dict(os.environ, ASAN_OPTIONS="detect_leaks=0", UBSAN_OPTIONS="print_stacktrace=1")
-    for tool in ("parse_file", "interrogate"):
-        if tool == "interrogate":
+    for tool in ("parse_file", "parse_file -E", "interrogate"):      # -E: the preprocessor alone reads on where the parser gives up at the first error
+        if tool == "parse_file -E":
+            cmd = [str(bdir / "bin" / "parse_file"), "-E"] + [a for a in args_extra if a.startswith("-D")] + ["self_including_file.h"]
+        elif tool == "interrogate":
             cmd = [str(bdir / "bin" / tool), "-oc", "o.cxx", "-od", "o.in", "-module", "m", "-library", "l"] + list(args_extra) + ["self_including_file.h"]
         else:
             cmd = [str(bdir / "bin" / tool)] + [a for a in args_extra if a.startswith("-D")] + ["self_including_file.h"]
@@ -125,7 +127,8 @@ def run(ck):
         explore(ck, bdir, wd / "std", cases, "std")
         # ---- sanitizer build -------------------------------------------------------------------------------------------------------------
         abdir = iglib.build_repo("asan")
-        sub = cases[:len(bytesgen.EDGE)] + rng.sample(cases[len(bytesgen.EDGE):], 120 if quick else 6000)
+        n_direct = len(bytesgen.EDGE) + len(corpus)      # the edge list and the unmutated corpus go through the sanitizer build in full, the mutants in part
+        sub = cases[:n_direct] + rng.sample(cases[n_direct:], 120 if quick else 6000)
         explore(ck, abdir, wd / "asan", sub, "asan")
         # ---- -D definitions --------------------------------------------------------------------------------------------------------------
         dcases = []
